@@ -17,14 +17,15 @@ import (
 // C15 — Go values cross the API as data: placeholders = literals, Scan exact or error.
 
 type c15Case struct {
-	Kind string `json:"kind"` // "string", "value", "count", "scan"
-	DQ   string `json:"double_quotes,omitempty"`
-	Pos  int    `json:"position,omitempty"`
-	Str  string `json:"str,omitempty"`
-	Val  string `json:"val,omitempty"` // name of a Go value in c15Values
-	NPh  int    `json:"placeholders,omitempty"`
-	NArg int    `json:"arguments,omitempty"`
-	Text string `json:"text,omitempty"` // a program text with placeholders (kind "text")
+	Kind  string `json:"kind"` // "string", "value", "count", "scan"
+	DQ    string `json:"double_quotes,omitempty"`
+	Pos   int    `json:"position,omitempty"`
+	Str   string `json:"str,omitempty"`
+	Val   string `json:"val,omitempty"` // name of a Go value in c15Values
+	NPh   int    `json:"placeholders,omitempty"`
+	NArg  int    `json:"arguments,omitempty"`
+	Text  string `json:"text,omitempty"`  // a program text with placeholders (kind "text")
+	Order []int  `json:"order,omitempty"` // kind "rows": the order in which the same-named struct types are scanned into
 	// scan
 	Query string `json:"query,omitempty"`
 	Dest  string `json:"dest,omitempty"`
@@ -252,6 +253,8 @@ func c15Run(c *c15Case) (exp, act, sig string, ok bool) {
 		return "", "", "", true
 	case "scan":
 		return c15Scan(p, c)
+	case "rows":
+		return c15Rows(p, c.Order)
 	}
 	return "", "unknown kind", "harness", false
 }
@@ -415,6 +418,104 @@ func c15Faithful(v reflect.Value, a *c15Answer) bool {
 		return v.Kind() == reflect.String && v.String() == *a.Str
 	}
 	return false
+}
+
+// ---- named struct destinations: several DIFFERENT types that share package and name (function-local types),
+// with different layouts, tags and unexported fields, scanned into one after the other in every order ----
+
+const c15RowQuery = "X = 1, Y = abc, Z = [1, 2], W = 2.5."
+
+func c15RowA(s *prolog.Solutions) string {
+	type row struct {
+		X int
+		Y string
+	}
+	var r row
+	if err := s.Scan(&r); err != nil {
+		return "error: " + err.Error()
+	}
+	return fmt.Sprintf("X=%d Y=%s", r.X, r.Y)
+}
+
+func c15RowB(s *prolog.Solutions) string {
+	type row struct {
+		Y string
+		Z []int
+		X int
+	}
+	var r row
+	if err := s.Scan(&r); err != nil {
+		return "error: " + err.Error()
+	}
+	return fmt.Sprintf("X=%d Y=%s Z=%v", r.X, r.Y, r.Z)
+}
+
+func c15RowC(s *prolog.Solutions) string {
+	type row struct {
+		W     float64
+		Count int `prolog:"X"`
+		hid   int
+		Z     []int64
+	}
+	var r row
+	if err := s.Scan(&r); err != nil {
+		return "error: " + err.Error()
+	}
+	return fmt.Sprintf("X=%d W=%v Z=%v hid=%d", r.Count, r.W, r.Z, r.hid)
+}
+
+func c15RowD(s *prolog.Solutions) string {
+	type row struct {
+		Z []int
+		W float64
+	}
+	var r row
+	if err := s.Scan(&r); err != nil {
+		return "error: " + err.Error()
+	}
+	return fmt.Sprintf("W=%v Z=%v", r.W, r.Z)
+}
+
+var c15RowFuncs = []struct {
+	name string
+	f    func(*prolog.Solutions) string
+	want string
+}{
+	{"A", c15RowA, "X=1 Y=abc"}, {"B", c15RowB, "X=1 Y=abc Z=[1 2]"}, {"C", c15RowC, "X=1 W=2.5 Z=[1 2] hid=0"}, {"D", c15RowD, "W=2.5 Z=[1 2]"},
+	{"E", nil, "error"},
+}
+
+func init() { c15RowFuncs[4].f = c15RowE }
+
+func c15RowE(s *prolog.Solutions) string {
+	type row struct {
+		X int
+	}
+	var r row
+	if err := s.Scan(r); err != nil { // a struct passed by value: nothing can be stored, an error is the only right outcome
+		return "error: " + err.Error()
+	}
+	return "no error for a struct passed by value"
+}
+
+func c15Rows(p *prolog.Interpreter, order []int) (exp, act, sig string, ok bool) {
+	defer func() {
+		if r := recover(); r != nil {
+			exp, act, sig, ok = "the exact values or an error", fmt.Sprintf("Scan panicked: %v", r), "scan: named struct destination: Scan panics", false
+		}
+	}()
+	for _, i := range order {
+		sols, err := p.Query(c15RowQuery)
+		if err != nil || !sols.Next() {
+			return "an answer", fmt.Sprint(err), "harness: query", false
+		}
+		got := c15RowFuncs[i].f(sols)
+		sols.Close()
+		if got != c15RowFuncs[i].want && !strings.HasPrefix(got, "error: ") {
+			return fmt.Sprintf("type %s (scanned in order %v): %s, or an error", c15RowFuncs[i].name, order, c15RowFuncs[i].want), got, "scan: named struct destination: a field holds another variable's value or is left out", false
+		}
+	}
+	return "", "", "", true
 }
 
 func c15Scan(p *prolog.Interpreter, c *c15Case) (exp, act, sig string, ok bool) {
@@ -597,6 +698,16 @@ func c15Work(w *h.W) {
 			return true
 		})
 	}
+	// all orders of scanning into 2..4 of the four same-named struct types
+	for l := 2; l <= 4; l++ {
+		seqs(l, len(c15RowFuncs), func(idx []int) bool {
+			if !w.Mine() {
+				return true
+			}
+			emit(&c15Case{Kind: "rows", Order: append([]int{}, idx...)}, l)
+			return true
+		})
+	}
 	for _, a := range c15Answers() {
 		for _, d := range c15Dests {
 			if !w.Mine() {
@@ -618,12 +729,12 @@ func c15Replay(b []byte) (string, string, bool) {
 
 func init() {
 	h.Register(&h.Check{
-		ID: "C15",
-		Rule: "placeholders: ALL strings of length <= L over a 26-rune alphabet of syntax-significant characters (quotes, backslash, '.', ',', brackets, '|', '%', '?', ':', '-', space, newline, NUL, multi-byte, U+10FFFF, digit) plus strings that spell Prolog syntax, x double_quotes {codes, chars, atom, default} x 6 positions (top level, argument, list element, operand of a prefix operator, twice in one term, shared through a variable); integers of every Go width at their extremes, floats incl. +-max, denormal, -0.0, float32, nested slices/arrays; unsupported Go kinds must be rejected; every (placeholder count, argument count) pair in {0..3}^2 through Query and Exec; every text of <= 3 (4) items out of 10 (facts and rules with a placeholder - a string placeholder next to the literal it must equal -, plain clauses, directives incl. ones that change double_quotes, comments, nothing) x 0..3 arguments through Exec: an error iff the counts differ, and the loaded facts hold exactly the values. Scan: 61 answer values (integers around every width boundary, floats around the float32 range, atoms, lists proper/nested/mixed, partial and improper lists, compounds, unbound, and the same lists as answers of append/findall/sort/=../length, atom_chars/atom_codes and double-quoted strings) x 16 destination types x 3 carriers (struct, map, map with a second list-valued variable). Distinct = case.",
-		Explanation: "state = one (Go value, context) pair; transition = one Query with placeholders (the term bound to X is captured structurally and must equal the term the literal with exactly those runes denotes, so nothing in the string can have been read as syntax), or one Scan (the stored Go value must represent the answer exactly, or Scan returns an error)",
-		Assumptions: []string{"a float32 destination may hold the nearest float32 of a value that is not representable; overflow to infinity or flush to zero must be an error", "a string destination may hold the text of any term"},
-		Work:        c15Work,
-		Replay:      c15Replay,
+		ID:            "C15",
+		Rule:          "placeholders: ALL strings of length <= L over a 26-rune alphabet of syntax-significant characters (quotes, backslash, '.', ',', brackets, '|', '%', '?', ':', '-', space, newline, NUL, multi-byte, U+10FFFF, digit) plus strings that spell Prolog syntax, x double_quotes {codes, chars, atom, default} x 6 positions (top level, argument, list element, operand of a prefix operator, twice in one term, shared through a variable); integers of every Go width at their extremes, floats incl. +-max, denormal, -0.0, float32, nested slices/arrays; unsupported Go kinds must be rejected; every (placeholder count, argument count) pair in {0..3}^2 through Query and Exec; every text of <= 3 (4) items out of 10 (facts and rules with a placeholder - a string placeholder next to the literal it must equal -, plain clauses, directives incl. ones that change double_quotes, comments, nothing) x 0..3 arguments through Exec: an error iff the counts differ, and the loaded facts hold exactly the values. Scan: 61 answer values (integers around every width boundary, floats around the float32 range, atoms, lists proper/nested/mixed, partial and improper lists, compounds, unbound, and the same lists as answers of append/findall/sort/=../length, atom_chars/atom_codes and double-quoted strings) x 16 destination types x 3 carriers (struct, map, map with a second list-valued variable); every sequence of 2..4 scans into five different function-local struct types that share their name (different layouts, a prolog tag, an unexported field, one passed by value). Distinct = case.",
+		Explanation:   "state = one (Go value, context) pair; transition = one Query with placeholders (the term bound to X is captured structurally and must equal the term the literal with exactly those runes denotes, so nothing in the string can have been read as syntax), or one Scan (the stored Go value must represent the answer exactly, or Scan returns an error)",
+		Assumptions:   []string{"a float32 destination may hold the nearest float32 of a value that is not representable; overflow to infinity or flush to zero must be an error", "a string destination may hold the text of any term"},
+		Work:          c15Work,
+		Replay:        c15Replay,
 		QuickDeadline: 170 * time.Second, ThoroughDeadline: 30 * time.Minute,
 	})
 }
